@@ -6,10 +6,10 @@
      Var  = VarI(SparseSet) | VarF(FloatInterval)            -> fvar  (SparseSet read as its sorted value list, C11)
      Val  = ValI(i32) | ValF(f64), PartialEq / PartialOrd     -> fval, val_eq / val_lt / val_le ... (core.rs:199-221)
      Context::try_set_min / try_set_max, all four (Var,Val) combinations (views.rs:185-497) -> xset_min / xset_max
-     views  Val, VarId, Opposite<V>, Next<V>  with float bounds (views.rs:517-563, 631-800): min/max, result_type,
+     views  Val, VarId, Opposite<V>, Next<V>, Prev<V>  with float bounds (views.rs:517-563, 631-800): min/max, result_type,
             try_set_min / try_set_max -> fview, fv_min ... fv_set_max
      Var::is_assigned, Var::mid, Var::get_assignment (core.rs:366-430)
-   NOT modelled here: Plus / TimesPos / Prev views with float operands (not produced by the constructs
+   NOT modelled here: Plus / TimesPos views with float operands (not produced by the constructs
    of Model/FloatProps.v and Model/FloatSearch.v), i32 overflow (Z is unbounded; `as f64` is exact on i32). *)
 From Coq Require Import ZArith Bool List.
 Import ListNotations.
@@ -97,10 +97,11 @@ Inductive fview : Set :=
 | FVar (v : nat)
 | FConst (c : fval)
 | FOpp (w : fview)
-| FNext (w : fview).
+| FNext (w : fview)
+| FPrev (w : fview).
 
 Fixpoint fv_under (w : fview) : option nat :=
-  match w with FVar v => Some v | FConst _ => None | FOpp u => fv_under u | FNext u => fv_under u end.
+  match w with FVar v => Some v | FConst _ => None | FOpp u => fv_under u | FNext u => fv_under u | FPrev u => fv_under u end.
 
 Definition val_neg (b : fval) : fval := match b with VlI z => VlI (- z) | VlF x => VlF (fneg x) end.
 
@@ -120,12 +121,22 @@ Definition next_bound (w : fview) (s : fstore) (b : fval) : fval :=
   | _, VlF _ => b
   end.
 
+(* Prev::min_raw / max_raw (views.rs): interval.prev on a float bound of a float VARIABLE, i-1 on an int bound, a float
+   bound without interval information is returned unchanged *)
+Definition prev_bound (w : fview) (s : fstore) (b : fval) : fval :=
+  match under_interval w s, b with
+  | Some i, VlF f => VlF (fi_prev i f)
+  | _, VlI z => VlI (z - 1)
+  | _, VlF _ => b
+  end.
+
 Fixpoint fv_min (w : fview) (s : fstore) : fval :=
   match w with
   | FVar v => var_min (fget s v)
   | FConst c => c
   | FOpp u => val_neg (fv_max u s)
   | FNext u => next_bound u s (fv_min u s)
+  | FPrev u => prev_bound u s (fv_min u s)
   end
 with fv_max (w : fview) (s : fstore) : fval :=
   match w with
@@ -133,6 +144,7 @@ with fv_max (w : fview) (s : fstore) : fval :=
   | FConst c => c
   | FOpp u => val_neg (fv_min u s)
   | FNext u => next_bound u s (fv_max u s)
+  | FPrev u => prev_bound u s (fv_max u s)
   end.
 
 (* result_type: true = ViewType::Float *)
@@ -143,6 +155,7 @@ Fixpoint fv_is_float (w : fview) (s : fstore) : bool :=
   | FConst (VlI _) => false
   | FOpp u => fv_is_float u s
   | FNext u => fv_is_float u s
+  | FPrev u => fv_is_float u s
   end.
 
 (* Next::try_set_min / try_set_max (views.rs:676-760): both compute the target with interval.PREV *)
@@ -161,12 +174,21 @@ Definition next_target (u : fview) (s : fstore) (b : fval) : fval :=
   | VlI m, false => VlI (m - 1)
   end.
 
+(* Prev::try_set_min / try_set_max (views.rs): both compute the target with interval.NEXT; after the repair "strict comparison
+   of an integer view with a float variable" an INTEGER bound on a float variable becomes interval.next(i as f64) (it was i+1) *)
+Definition prev_target (u : fview) (s : fstore) (b : fval) : fval :=
+  match b with
+  | VlF f => match under_interval u s with Some i => VlF (fi_next i f) | None => b end
+  | VlI m => match under_interval u s with Some i => VlF (fi_next i (f64_of_Z m)) | None => VlI (m + 1) end
+  end.
+
 Fixpoint fv_set_min (w : fview) (b : fval) (c : fctx) : option fctx :=
   match w with
   | FVar v => xset_min v b c
   | FConst k => if val_le b k then Some c else None          (* Val::try_set_min: min <= self *)
   | FOpp u => fv_set_max u (val_neg b) c
   | FNext u => fv_set_min u (next_target u (fst c) b) c
+  | FPrev u => fv_set_min u (prev_target u (fst c) b) c
   end
 with fv_set_max (w : fview) (b : fval) (c : fctx) : option fctx :=
   match w with
@@ -174,6 +196,7 @@ with fv_set_max (w : fview) (b : fval) (c : fctx) : option fctx :=
   | FConst k => if val_ge b k then Some c else None          (* Val::try_set_max: max >= self *)
   | FOpp u => fv_set_min u (val_neg b) c
   | FNext u => fv_set_max u (next_target u (fst c) b) c
+  | FPrev u => fv_set_max u (prev_target u (fst c) b) c
   end.
 
 (* ---------------------------------------------------------------- assignment *)
